@@ -1388,9 +1388,16 @@ def check(run, replay):
                                              "and ndarray) on tie-free and tied columns of 1..7 rows (%d cases) included" % len(exhaustive_labels()))
     run.samples = [c for c in cases[:400:60]][:6]
     run.assumptions += [
-        "decision values and class distributions are generated as integers / dyadic rationals so that the float evaluation of "
-        "np.percentile and of the comparisons is exact; cases whose cut point would sit on a float rounding tie "
-        "(non-dyadic 1/n with an integral virtual index, int(n*p) differing between float and exact arithmetic) are skipped and counted",
+        "np.percentile is an ORACLE in the model of generate_labels: the recorded percent list and cut points (exact rationals of the "
+        "doubles) are checked against its contract (percents within 1e-9 of the requested cumulative proportions; cut point in the "
+        "bracket of its virtual index, a neighbouring bracket only when that index is within 1e-9 of an integer) and EVERY recorded "
+        "case is judged with them; in addition the exact rational model of np.percentile must reproduce the labels whenever the double "
+        "computation is provably exact (integer / dyadic decision values and proportions)",
+        "int(n*p) of the noise code is an oracle answer k (size of the recorded np.random.choice request), checked: k = floor(n p), or "
+        "one off only when n p is within 1e-9 of an integer and p has more than 20 fractional bits; no case is skipped",
+        "two places of the code are modelled in two readings (per-label slices of categorical noise: as first read / cumulative; scalar p "
+        "with n > 2: ignored / honoured); one reading must reproduce the whole run (coverage.input_distribution.stats.code_variant); "
+        "PINNED_VARIANTS in tools/props/c20.py pins it once the proposed repairs are committed or rejected",
         "decision values are scaled by a common power of two before they reach the model (percentile and comparisons are scale-equivariant)",
         "numpy RNG (choice, randint, shuffle), y.argsort() and sklearn.utils.resample are oracles: their recorded answers are "
         "checked by the model (range, distinctness, length, sortedness, rows of the population)",
